@@ -161,6 +161,13 @@ def present(a, how):
 CONTAINERS = ["array", "array", "array", "series", "series_rev"]
 
 
+def small_hash(case, byte):
+    """byte `byte` of the SHA-1 of a case: a source of per-case choices that is a pure function of the case"""
+    import hashlib, json
+
+    return hashlib.sha1(json.dumps(case, sort_keys=True, default=str).encode()).digest()[byte]
+
+
 def plain_flag(case):
     """Whether whole-number scalars of this case (region bounds, spacings, sizes, pads) are handed to verde as Python ints instead of
     floats: a pure function of the case (a third of them)."""
